@@ -10,7 +10,8 @@
      c19 rt     <T> <V>             -> ok:<hex>|<answer of `unpack <T> <hex>`> | panic     (`pack()`, then `unpack_from_slice`)
 
    Type grammar T (no spaces):
-     u8 u16 u32 u64 i8 i16 i32 i64 f32 f64 u128 i128 bool unit x        primitives / () / a type the model does not know
+     u8 u16 u32 u64 i8 i16 i32 i64 f32 f64 u128 i128 bool unit x xN     primitives / () / a type the model does not know
+                                                                        (xN: hand-written impl, only PACKED_LEN = N known)
      a(N,T)                                                             [T; N]
      t(T,T,…)                                                           tuple
      e(R;V;V;…)    R = u8|…|i64|u128|i128|usize|isize|none              derived enum;  V = D{/A}{c|d}:
@@ -69,7 +70,13 @@ def primOf (name : String) : Option PT :=
   | "bool" => some { tok := .bool, codec := Codec.bool }
   | "unit" => some { tok := .other, codec := Codec.unitTy }
   | "x" => some { tok := .other, codec := Codec.unknown 0 }
-  | _ => none
+  | _ =>
+    -- `x<N>`: a type with a hand-written impl of which only PACKED_LEN = N is known
+    if name.startsWith "x" then
+      match takeNat (name.drop 1).toString.toList 0 false with
+      | some (n, []) => some { tok := .other, codec := Codec.unknown n }
+      | _ => none
+    else none
 
 def reprOf (name : String) : Option ReprTy :=
   match name with
